@@ -11,7 +11,18 @@ pub const ALPHABET: [u8; 5] = [0x00, 0x01, 0x10, 0x11, 0xff];
 
 /// Keys over a tiny alphabet whose nibbles collide, of length 0..6, plus long
 /// keys that share a long common prefix (stems longer than the inline limit).
+/// When set (per history), a third of the generated keys are longer than 32 KiB and share a
+/// prefix of more than 32768 bytes (key lengths are legal up to 2^30).
+pub static HUGE_KEYS: std::sync::atomic::AtomicBool = std::sync::atomic::AtomicBool::new(false);
+
 pub fn gen_key(r: &mut Rng) -> Vec<u8> {
+    if HUGE_KEYS.load(std::sync::atomic::Ordering::Relaxed) && r.chance(1, 3) {
+        let mut k = vec![0xab; 32_770 + r.below(3) as usize];
+        for _ in 0..1 + r.below(3) {
+            k.push(*r.pick(&ALPHABET));
+        }
+        return k;
+    }
     let len = match r.below(12) {
         0 => 0,
         10 => 20 + r.below(300) as usize,
@@ -106,7 +117,7 @@ pub fn check_mutable(t: &mut MutableTrie, loader: &mut L, m: &Model, prefixes: &
         let got = e.and_then(|e| t.with_entry(e, loader, |b| b.to_vec()));
         reads += 1;
         if got.as_ref() != Some(v) {
-            return Err(format!("{}: lookup of {} gives {:?}, model has {} bytes", what, vmon_core::hex(k), got.map(|g| g.len()), v.len()));
+            return Err(format!("{}: lookup of {} gives {:?}, model has {} bytes", what, hx(k), got.map(|g| g.len()), v.len()));
         }
     }
     for k in near_misses(m) {
@@ -114,7 +125,7 @@ pub fn check_mutable(t: &mut MutableTrie, loader: &mut L, m: &Model, prefixes: &
         let got = e.and_then(|e| t.with_entry(e, loader, |b| b.to_vec()));
         reads += 1;
         if got.as_ref() != m.get(&k) {
-            return Err(format!("{}: lookup of near-miss key {} gives {:?}, model {:?}", what, vmon_core::hex(&k), got.map(|g| g.len()), m.get(&k).map(|g| g.len())));
+            return Err(format!("{}: lookup of near-miss key {} gives {:?}, model {:?}", what, hx(&k), got.map(|g| g.len()), m.get(&k).map(|g| g.len())));
         }
     }
     #[cfg(concordium_base_verif)]
@@ -127,7 +138,7 @@ pub fn check_mutable(t: &mut MutableTrie, loader: &mut L, m: &Model, prefixes: &
             match it {
                 None => {
                     if !expect.is_empty() {
-                        return Err(format!("{}: iterator over prefix {} does not exist but the model has {} keys there", what, vmon_core::hex(&p), expect.len()));
+                        return Err(format!("{}: iterator over prefix {} does not exist but the model has {} keys there", what, hx(&p), expect.len()));
                     }
                 }
                 Some(mut it) => {
@@ -142,20 +153,20 @@ pub fn check_mutable(t: &mut MutableTrie, loader: &mut L, m: &Model, prefixes: &
                     }
                     // exhausted iterators stay exhausted
                     if t.verif_next(loader, &mut it).is_some() {
-                        return Err(format!("{}: exhausted iterator over {} yielded another entry", what, vmon_core::hex(&p)));
+                        return Err(format!("{}: exhausted iterator over {} yielded another entry", what, hx(&p)));
                     }
                     if !t.verif_delete_iter(&it) {
-                        return Err(format!("{}: deleting the iterator over {} reported that it did not exist", what, vmon_core::hex(&p)));
+                        return Err(format!("{}: deleting the iterator over {} reported that it did not exist", what, hx(&p)));
                     }
                     let exp: Vec<(Vec<u8>, Vec<u8>)> = expect.iter().map(|(k, v)| ((*k).clone(), (*v).clone())).collect();
                     if got != exp {
-                        let gk: Vec<String> = got.iter().map(|(k, _)| vmon_core::hex(k)).collect();
-                        let ek: Vec<String> = exp.iter().map(|(k, _)| vmon_core::hex(k)).collect();
-                        return Err(format!("{}: iteration over prefix {} yields keys {:?}, model (ascending) {:?}{}", what, vmon_core::hex(&p), gk, ek, if gk == ek { " (values differ)" } else { "" }));
+                        let gk: Vec<String> = got.iter().map(|(k, _)| hx(k)).collect();
+                        let ek: Vec<String> = exp.iter().map(|(k, _)| hx(k)).collect();
+                        return Err(format!("{}: iteration over prefix {} yields keys {:?}, model (ascending) {:?}{}", what, hx(&p), gk, ek, if gk == ek { " (values differ)" } else { "" }));
                     }
                     if expect.is_empty() {
                         // the documentation says an iterator always yields at least one value
-                        return Err(format!("{}: iterator over prefix {} exists but yields nothing", what, vmon_core::hex(&p)));
+                        return Err(format!("{}: iterator over prefix {} exists but yields nothing", what, hx(&p)));
                     }
                 }
             }
@@ -177,22 +188,22 @@ pub fn check_persistent(p: &PersistentState, loader: &mut L, m: &Model, what: &s
         reads += 1;
         match p.lookup(loader, k) {
             Some(x) if &x == v => {}
-            o => return Err(format!("{}: persistent lookup of {} gives {:?}, model has {} bytes", what, vmon_core::hex(k), o.map(|x| x.len()), v.len())),
+            o => return Err(format!("{}: persistent lookup of {} gives {:?}, model has {} bytes", what, hx(k), o.map(|x| x.len()), v.len())),
         }
     }
     for k in near_misses(m) {
         reads += 1;
         let got = p.lookup(loader, &k);
         if got.as_ref() != m.get(&k) {
-            return Err(format!("{}: persistent lookup of near-miss key {} gives {:?}, model {:?}", what, vmon_core::hex(&k), got.map(|g| g.len()), m.get(&k).map(|g| g.len())));
+            return Err(format!("{}: persistent lookup of near-miss key {} gives {:?}, model {:?}", what, hx(&k), got.map(|g| g.len()), m.get(&k).map(|g| g.len())));
         }
     }
     let it: Vec<(Vec<u8>, Vec<u8>)> = p.clone().into_iterator(loader).collect();
     let exp: Vec<(Vec<u8>, Vec<u8>)> = m.iter().map(|(k, v)| (k.clone(), v.clone())).collect();
     reads += it.len() as u64;
     if it != exp {
-        let gk: Vec<String> = it.iter().map(|(k, _)| vmon_core::hex(k)).collect();
-        let ek: Vec<String> = exp.iter().map(|(k, _)| vmon_core::hex(k)).collect();
+        let gk: Vec<String> = it.iter().map(|(k, _)| hx(k)).collect();
+        let ek: Vec<String> = exp.iter().map(|(k, _)| hx(k)).collect();
         return Err(format!("{}: persistent iteration yields {:?}, model (ascending) {:?}", what, gk, ek));
     }
     Ok(reads)
@@ -204,3 +215,6 @@ pub fn look(st: &mut MutableState, loader: &mut L, k: &[u8]) -> Option<Vec<u8>> 
     let e = t.get_entry(loader, k)?;
     t.with_entry(e, loader, |b| b.to_vec())
 }
+
+/// Hex for logs and witnesses; long keys are abbreviated (replay regenerates the case anyway).
+pub fn hx(b: &[u8]) -> String { vmon_core::hex_short(b, 48) }
